@@ -1,5 +1,6 @@
 import Pearl.Model.Script
 import Pearl.Model.Worker
+import Pearl.Model.Fs
 import Pearl.Model.Record
 import Pearl.Model.BPTreeBytes
 import Pearl.Model.BloomProto
@@ -24,6 +25,9 @@ structure DState where
   dumpRunning : Bool := false
   fsyncRunning : Bool := false
   bloom : BloomProto.BState := {}
+  /-- L6: file counters / index files next to the store, and the events since the last `trace` -/
+  fs : Fs.FsState := {}
+  pendingEv : List Event := []
 deriving Inhabited
 
 /-- run one message through the proved worker model (`processMsgFixed` = the loop as it is in /repo) -/
@@ -102,7 +106,7 @@ def afterWrite (d : DState) (annotated : Bool) : DState × String :=
       (noteBorn (worker d .tryUpdateActiveBlob none), "ok switched")
     else (d, "ok")
 
-def step (d : DState) (line : String) : DState × String :=
+def stepCore (d : DState) (line : String) : DState × String :=
   let toks0 := line.trimAscii.toString.splitOn " "
   let annotated := toks0.contains "@switched"
   let toks := toks0.filter (fun t => !t.startsWith "@" && t ≠ "")
@@ -181,4 +185,63 @@ def step (d : DState) (line : String) : DState × String :=
         let (s, o) := Script.step d.store line'
         (noteBorn { d with store := s }, o)
 
+/-! ### L6: the `trace` / `dirty` outputs -/
+
+def forcePred (p : String) : BlobPred :=
+  match p with
+  | "always" => fun _ => true
+  | "never" => fun _ => false
+  | "nonempty" => fun st => match st with | some x => decide (x.recordsCount > 0) | none => false
+  | "ge3" => fun st => match st with | some x => decide (x.recordsCount ≥ 3) | none => false
+  | _ => fun _ => false
+
+/-- the file-level operations a script line stands for, given what the L2/L3 step answered -/
+def fsOps (toks : List String) (out : String) : List Fs.FsOp :=
+  match toks with
+  | ["w", k, ts, m, len, seed] =>
+    match hexNat k, ts.toNat?, parseMeta m, len.toNat?, seed.toNat? with
+    | some k, some ts, some m, some len, some seed =>
+      if out.startsWith "ok" then [.write k ts m ⟨len, if len == 0 then 0 else seed⟩ (out == "ok switched")] else []
+    | _, _, _, _, _ => []
+  | ["d", k, ts, m, oip] =>
+    match hexNat k, ts.toNat?, parseMeta m, oip.toNat? with
+    | some k, some ts, some m, some oip => if out.startsWith "n=" then [.delete k ts m (oip != 0)] else []
+    | _, _, _, _ => []
+  | ["close_active"] | ["close_active_bg"] => [.closeActive]
+  | ["create_active"] | ["create_active_bg"] => [.createActive]
+  | ["restore_active"] | ["restore_active_bg"] => [.restoreActive]
+  | ["force", p] => [.force (forcePred p)]
+  | ["free"] => [.free]
+  | ["settle"] => [.settle]
+  | ["fsync"] => [.fsync]
+  | ["restart"] => [.restart false]
+  | ["restart", "lazy"] => [.restart true]
+  | "flipsweep" :: _ => [.restart false]
+  | "dmgsweep" :: rest => [.restart (rest.contains "lazy")]
+  | "replayfrom" :: rest => [.restart (rest.contains "lazy")]
+  | ["close"] => [.close]
+  | ["open"] => [.open false]
+  | ["open", "lazy"] => [.open true]
+  | _ => []
+
+def step (d : DState) (line : String) : DState × String :=
+  let toks := (line.trimAscii.toString.splitOn " ").filter (fun t => !t.startsWith "@" && t ≠ "")
+  match toks with
+  | ["trace"] =>
+    if !d.isOpen then (d, "err NoStorage") else ({ d with pendingEv := [] }, Fs.showTrace d.pendingEv)
+  | ["dirty"] =>
+    if !d.isOpen then (d, "err NoStorage") else (d, Fs.showDirty d.fs)
+  | ["quiesce"] =>
+    if !d.isOpen then (d, "err NoStorage") else (d, "ok")
+  | "cfg" :: rest =>
+    let (d', o) := stepCore d line
+    let r := Fs.init (rest.any (· == "dup=1")) (cfgNat rest "dirty" 33554432) (cfgNat rest "key" 4)
+      (cfgNat rest "fsyncfix" 1 != 0)
+    ({ d' with fs := r.1, pendingEv := r.2 }, o)
+  | _ =>
+    let (d', o) := stepCore d line
+    let r := Fs.runFrom (d.fs, []) (fsOps toks o)
+    ({ d' with fs := r.1, pendingEv := d.pendingEv ++ r.2 }, o)
+
 end Pearl.Driver
+
